@@ -68,7 +68,7 @@ class C12(RS.StepProp):
     extended_cases = 500
     fail_text = {1: 'node keys of the fine graph are not 0..n-1',
                  2: 'node keys are not ascending in coarse membership (fragid)',
-                 3: 'the atoms of a coarse node do not form one contiguous block in base-graph order',
+                 3: 'the atoms of a coarse node do not form one contiguous block in base-graph (coarse key) order',
                  4: 'an atom name is not element + decimal index, or not element + position in a coarse node without shared atom',
                  5: 'atom names are not unique within a coarse node',
                  10: 'repeated constructor/resolve calls in one process gave different graphs for the same input',
@@ -88,6 +88,7 @@ class C12(RS.StepProp):
         out = []
         for s, laa in [('{[#A][#B]}.{#A=CC[!],#B=[!]CC}', True),
                        ('{[#A]1.[#B][#K]1}.{#A=CC[!],#B=CC[!],#K=[!]CC[!]}', True),
+                       ('{[#V].[#A][#B]}.{#A=[$]CC,#B=[$]OC}', True),
                        ('{[#A][#B][#C]}.{#A=CC[!],#B=[!]C[!],#C=[!]CO}', True),
                        ('{[#A][#B]}.{#A=[$]CC[$],#B=[$]OC}', True),
                        ('{[#A]|3}.{#A=[$]CC[$]}', True),
@@ -96,6 +97,8 @@ class C12(RS.StepProp):
             for lv in range(s.count('.{')):
                 out.append({'kind': 'step', 's': s, 'laa': laa, 'legacy': True, 'level': lv})
         base, blocks = '{[#A][#B][#C]}', [['#A=[$][#X][#Y]', '#B=[$][#X][$]', '#C=[$][#Y]'], ['#X=[$]CC[$]', '#Y=[$]O[$]']]
+        out.append({'kind': 'step', 's': '{[#A][#B][#C]}.{#A=[$]CC[$],#B=[$]O[$],#C=[$]CN}', 'laa': True, 'legacy': True, 'level': 0, 'rekey': True})
+        out.append({'kind': 'step', 's': '{[#A][#B]}.{#A=[$][#X][#Y],#B=[$][#P]=[#Q]}', 'laa': False, 'legacy': True, 'level': 0, 'rekey': True})
         for exp in EXPS:
             out.append({'kind': 'det', 'exp': exp, 'base': base, 'blocks': blocks, 'laa': True, 'legacy': True, 'hseed': 1})
         for s in ['{a}{b}', '{}{x}', '{{a}}', 'a{b', '{a}.{#A=[$]C}', '}{', '{a\n}']:
@@ -116,8 +119,12 @@ class C12(RS.StepProp):
             base, blocks = RS.rand_multilevel(rng, levels, laa, squash=rng.random() < 0.3, coarse_squash=True)
             s = RS.join_blocks(base, blocks)
             legacy = rng.random() < 0.6
+            rekey = rng.random() < 0.15      # through from_graph, coarse keys 3k+2 inserted in REVERSE key order
             for lv in range(levels):
-                out.append({'kind': 'step', 's': s, 'laa': laa, 'legacy': legacy, 'level': lv})
+                c = {'kind': 'step', 's': s, 'laa': laa, 'legacy': legacy, 'level': lv}
+                if rekey:
+                    c['rekey'] = True
+                out.append(c)
         dets = []
         for _ in range(n_det):
             levels = rng.choice([1, 1, 2, 2, 3])
@@ -299,9 +306,22 @@ class C12(RS.StepProp):
             impl['_k'] = self.put_term([], 'C12Check.CDet %s %s' % (lit.nat(EXPS[case['exp']]), lit.b(ok)))
             return impl
         from cgsmiles.resolve import MoleculeResolver
-        key = (case['s'], case['laa'], case['legacy'])
-        got = self.records_for(key, lambda: MoleculeResolver.from_string(case['s'], last_all_atom=case['laa'],
-                                                                         legacy=case['legacy']))
+        key = (case['s'], case['laa'], case['legacy'], bool(case.get('rekey')))
+
+        def make():
+            if not case.get('rekey'):
+                return MoleculeResolver.from_string(case['s'], last_all_atom=case['laa'], legacy=case['legacy'])
+            import networkx as nx
+            from cgsmiles.read_cgsmiles import read_cgsmiles
+            elements = re.findall(BLOCK_RE, case['s'])
+            base = read_cgsmiles(elements[0])
+            G = nx.Graph()
+            for k in reversed(list(base.nodes)):
+                G.add_node(3 * k + 2, **base.nodes[k])
+            for a, b, d in base.edges(data=True):
+                G.add_edge(3 * a + 2, 3 * b + 2, **d)
+            return MoleculeResolver.from_graph(''.join(elements[1:]), G, last_all_atom=case['laa'], legacy=case['legacy'])
+        got = self.records_for(key, make)
         if 'ctor_exc' in got or case['level'] >= len(got['recs']) or 'skip' in got['recs'][case['level']]:
             why = got.get('ctor_exc') or ('level not reached' if case['level'] >= len(got.get('recs', [])) else
                                           got['recs'][case['level']]['skip'])
@@ -342,7 +362,8 @@ class C12(RS.StepProp):
             return 'det:%s:%dlevels' % (case['exp'], len(case['blocks']))
         if impl.get('exc'):
             return 'raised:%s@%s' % (impl['exc'], RS.STAGES.get(impl['stage']))
-        return '%s:level%d%s' % ('all-atom' if impl['aa'] else 'coarse', case['level'], ':shared-atoms' if impl.get('shared') else '')
+        return '%s:level%d%s%s' % ('all-atom' if impl['aa'] else 'coarse', case['level'], ':shared-atoms' if impl.get('shared') else '',
+                                   ':rekeyed-reversed' if case.get('rekey') else '')
 
 
 PROP = C12()
